@@ -236,6 +236,14 @@ func execCase(c Case) (res vt.Result) {
 		}
 		return nil
 	}
+	var twin *drive.Shard
+	closeTwinOuter := func() {
+		if twin != nil {
+			twin.Close()
+			twin = nil
+		}
+	}
+	defer closeTwinOuter()
 	for i, st := range c.H.Steps {
 		f := c.Faults[i]
 		if st.Kind == "reopen" || st.Kind == "evict" {
@@ -256,6 +264,40 @@ func execCase(c Case) (res vt.Result) {
 		reason := applyToModel(modelAfter, st)
 		if wrongType && reason == "" {
 			reason = "wrongly typed indexed field"
+		}
+		// a twin of the state before the batch, for shards with a quantiser that is learned from the data:
+		// a call that reports success although a storage operation it issued failed must have done what
+		// the same call does without the failure, training included
+		closeTwinOuter()
+		if learned := learnedQuantisers(r.S); len(learned) > 0 && (f.Kind == "failop" || f.Kind == "enumerate") {
+			if twin, err = r.Copy(cache.NewManager(-1)); err != nil {
+				return fail(i, "twin copy: %v", err)
+			}
+		}
+		closeTwin := closeTwinOuter
+		swallowedComplete := func() error {
+			if twin == nil {
+				return nil
+			}
+			defer closeTwin()
+			if err := applyToShard(twin, st); err != nil {
+				return fmt.Errorf("the batch on a copy of the file without the fault: %v", err)
+			}
+			for _, prop := range learnedQuantisers(r.S) {
+				a, _, err := r.S.VecInfo(prop)
+				if err != nil {
+					return err
+				}
+				b, _, err := twin.VecInfo(prop)
+				if err != nil {
+					return err
+				}
+				rec.Count("swallowed_faults_compared_with_a_fault_free_twin", 1)
+				if (a.Threshold != nil) != (b.Threshold != nil) || (a.Centroids != nil) != (b.Centroids != nil) {
+					return fmt.Errorf("the call reported success although a storage operation it issued failed, and it is not complete: the quantiser of %s is trained = %v after it, trained = %v after the same batch without the failure", prop, a.Threshold != nil || a.Centroids != nil, b.Threshold != nil || b.Centroids != nil)
+				}
+			}
+			return nil
 		}
 		// ---- attempts with injected faults: each must fail and leave everything as before
 		attempt := func(plan *drive.Plan, what string) (fired bool, err error) {
@@ -286,6 +328,9 @@ func execCase(c Case) (res vt.Result) {
 			}
 			if callErr == nil {
 				// the injected error was swallowed: then the call claims success and must be complete — judged below by the caller
+				if err := swallowedComplete(); err != nil {
+					return true, fmt.Errorf("%s (%s): %v", what, plan.FailedOp, err)
+				}
 				return true, errSwallowed
 			}
 			if !errors.Is(callErr, drive.ErrInjected) && reason == "" {
@@ -418,6 +463,28 @@ func execCase(c Case) (res vt.Result) {
 }
 
 var errSwallowed = errors.New("injected error swallowed")
+
+// learnedQuantisers lists the vector properties whose quantiser is trained from the stored data.
+func learnedQuantisers(s *drive.Shard) []string {
+	var out []string
+	for prop, sv := range s.Col.IndexSchema {
+		var q *models.Quantizer
+		switch sv.Type {
+		case models.IndexTypeVectorFlat:
+			q = sv.VectorFlat.Quantizer
+		case models.IndexTypeVectorVamana:
+			q = sv.VectorVamana.Quantizer
+		}
+		if q == nil {
+			continue
+		}
+		if (q.Type == models.QuantizerBinary && q.Binary != nil && q.Binary.Threshold == nil) || q.Type == models.QuantizerProduct {
+			out = append(out, prop)
+		}
+	}
+	sort.Strings(out)
+	return out
+}
 
 func checkSnapshot(r *run.Runner, path string, pool []uuid.UUID, suite []models.Query, want oracle.Observation) error {
 	s, err := drive.OpenNamed(path, r.H.Schema, r.H.MaxPointSize, cache.NewManager(-1), r.H.Rename)
